@@ -43,7 +43,7 @@ TReset ==
   /\ Is("reset")
   /\ ppc' = [p \in Proxies |-> "idle"] /\ wpc' = [p \in Proxies |-> "none"]
   /\ cpc' = [c \in Clients |-> "idle"] /\ apc' = [a \in Answers |-> "idle"]
-  /\ pnat' = [p \in Proxies |-> None] /\ pload' = [p \in Proxies |-> None]
+  /\ pnat' = [p \in Proxies |-> None] /\ pload' = [p \in Proxies |-> None] /\ psid' = [p \in Proxies |-> None]
   /\ cnat' = [c \in Clients |-> None] /\ cfp' = [c \in Clients |-> None]
   /\ atarget' = [a \in Answers |-> None]
   /\ heapU' = {} /\ heapR' = {} /\ idmap' = {} /\ gauge' = 0
@@ -60,7 +60,7 @@ TReset ==
 TAdd ==
   /\ Is("add") /\ LockOK
   /\ Ev.nat = Eff(Ev.natwire)                       \* NAT type as decoded = as reported (absent means unknown)
-  /\ ProxyRegister(Ev.p, Ev.nat, Ev.loadwire)      \* the heap order is judged on the self-reported count
+  /\ ProxyRegister(Ev.p, Ev.nat, Ev.loadwire, Ev.p)      \* the heap order is judged on the self-reported count
   /\ cnt' = (IF Ev.relayext THEN [cnt EXCEPT !.withRelay = @ + 1] ELSE [cnt EXCEPT !.withoutRelay = @ + 1])
   /\ pcnt' = Bump(pcnt, RelayKey(Ev.relayext, Ev.nat, Ev.ptype))
   /\ ips' = PutIn(ips, Ev.ptype, Ev.addr)
